@@ -387,6 +387,17 @@ func runCheck(repo, verif, prop string, thorough, verbose, writeEvidence, update
 		fmt.Printf("ENGINE-ERROR: %v\n", err)
 		return 2
 	}
+	// A canary that is still undecided after the retry pass gets a last attempt on its own with a large budget: it is a
+	// satisfiable query whose only difficulty is its size, and a loaded machine must not turn it into an engine error.
+	for _, c := range run.canaries {
+		if c.Result != "sat" && c.Result != "unsat" && c.Err == "" {
+			c.relaxed, c.candidate, c.Time, c.Model, c.Result = false, false, 0, "", ""
+			if err := solve(c, wd, timeout*30, false); err != nil {
+				fmt.Printf("ENGINE-ERROR: %v\n", err)
+				return 2
+			}
+		}
+	}
 	if os.Getenv("GCV_DEBUG_TIME") != "" {
 		fmt.Fprintf(os.Stderr, "time: encode %.1fs solve %.1fs\n", tSolve.Sub(t0).Seconds(), time.Since(tSolve).Seconds())
 	}
